@@ -5,6 +5,8 @@ draws).  Proofs in Env/PacMan/Lemmas.lean.
 import JumanjiModel.Env.PacMan.Lemmas
 import JumanjiModel.Env.PacMan.BoundsLemmas
 import JumanjiModel.Env.PacMan.ConsistentLemmas
+import JumanjiModel.Env.PacMan.MazeLemmas
+import JumanjiModel.Gen.PacManMaze
 open Jm PacMan
 
 namespace Props.C04
@@ -114,6 +116,96 @@ theorem pacman_cellsWith_nodup (maze : List (List Char)) (p : Char → Bool) : (
 `pacman_step_consistent`) -/
 theorem pacman_reset_nodup (maze : List (List Char)) (s : State) (h : resetState maze = some s) :
     (nonzero s.pelletLocs).Nodup := PacMan.resetState_nodup maze s h
+end Props.C07
+
+namespace Props.C10
+/-- the executable checker of a maze table is sound, for EVERY table and certificate: if `tableCheck t dist` evaluates
+to `true` then the maze is a non-empty rectangle of 0/1 cells, the player start and the four ghost starts lie inside
+it on free cells, the player start is not a ghost start, all pellets / power-ups lie on free cells and are pairwise
+distinct, the four scatter targets lie on free cells, and every free cell is reached from the player start by a
+sequence of legal moves (4-connectivity with the tunnel wrap-around).  `dist` is only a hint (distances from the
+start); nothing is assumed about it. -/
+theorem pacman_table_check_sound (t : MazeTable) (dist : DistCert) (h : tableCheck t dist = true) : MazeTableOK t :=
+  PacMan.tableCheck_sound t dist h
+
+/-- the shipped maze: the table generated from the real `reset` of `PacMan()` (Gen/PacManMaze.lean) satisfies the
+specification — the checker is evaluated on it by the kernel (`Gen.PacManMaze.table_ok`) -/
+theorem pacman_default_maze_ok : MazeTableOK Gen.PacManMaze.table :=
+  PacMan.tableCheck_sound _ _ Gen.PacManMaze.table_ok
+
+/-- spelled out: every free cell of the shipped maze is reached from the player start (row 23, column 13) by legal
+moves -/
+theorem pacman_default_maze_connected (x y : Int) (hf : free Gen.PacManMaze.grid x y) :
+    Reach Gen.PacManMaze.grid Gen.PacManMaze.table.player (x, y) := pacman_default_maze_ok.connected x y hf
+
+/-- the generated table is what the model's transliteration of the ASCII parser / `AsciiGenerator.__call__`
+(`resetState`, compared with the implementation by `pac_man.instance`) builds from `constants.DEFAULT_MAZE` -/
+theorem pacman_default_maze_reset :
+    resetState (Gen.PacManMaze.ascii.map String.toList) = some Gen.PacManMaze.table.toState := by
+  rw [PacMan.resetState_eq_ofAscii, Gen.PacManMaze.ascii_table]; rfl
+
+/-- for ANY maze table satisfying the specification, the state `reset` returns satisfies the consistency predicate
+of C07 and lists no pellet cell twice (the two hypotheses of `pacman_step_consistent`) -/
+theorem pacman_reset_consistent (t : MazeTable) (h : MazeTableOK t) :
+    Consistent (PacMan.reset t.toState).1 ∧ (nonzero (PacMan.reset t.toState).1.pelletLocs).Nodup :=
+  PacMan.reset_consistent t h
+
+/-- connectivity is realised by the L1 step function: for ANY maze table satisfying the specification and every free
+cell there is a sequence of actions 0..3 which, played from `reset` through `step`, puts the player on that cell —
+for every time limit and whatever the ghosts do (`step` as a state function: the step types of the episode, which
+may end earlier by a ghost collision or the time limit, are not considered) -/
+theorem pacman_all_cells_walkable (t : MazeTable) (h : MazeTableOK t) (x y : Int) (hf : free t.grid x y) :
+    ∃ as : List Int, (∀ a ∈ as, 0 ≤ a ∧ a < 4) ∧
+      ∀ (tl : Int) (ds : List Draw), ds.length = as.length →
+        ∃ s', (trace tl (PacMan.reset t.toState).1 (as.zip ds)).getLast? = some s' ∧ s'.player = (x, y) :=
+  PacMan.all_cells_walkable t h x y hf
+
+/-- a 5 × 5 maze: a ring with a horizontal tunnel (row 1) -/
+def pacmanRing : MazeTable :=
+  { grid := [[0, 0, 0, 0, 0], [1, 1, 1, 1, 1], [0, 1, 0, 1, 0], [0, 1, 1, 1, 0], [0, 0, 0, 0, 0]],
+    player := (1, 0), ghosts := [(1, 3), (2, 3), (3, 3), (3, 2)], pellets := [(0, 1), (1, 1), (4, 1), (2, 3)],
+    powerUps := [(4, 1)], scatter := [(0, 1), (4, 1), (1, 3), (3, 3)] }
+example : tableCheck pacmanRing (bfsDist pacmanRing.grid pacmanRing.player) = true := by decide +kernel
+/-- the tunnel is used: (column 4, row 1) is one move away from the start (column 0, row 1) -/
+example : bfsDist pacmanRing.grid pacmanRing.player =
+    [[0, 0, 0, 0, 0], [0, 1, 2, 2, 1], [0, 2, 0, 3, 0], [0, 3, 4, 4, 0], [0, 0, 0, 0, 0]] := by decide +kernel
+/-- the checker rejects the ring with the cell (row 3, column 2) replaced by a wall and (row 4, column 2) opened:
+that cell is free but cut off -/
+example : tableCheck { pacmanRing with grid := [[0, 0, 0, 0, 0], [1, 1, 1, 1, 1], [0, 1, 0, 1, 0], [0, 1, 0, 1, 0], [0, 0, 1, 0, 0]],
+                                       ghosts := [(1, 3), (1, 3), (3, 3), (3, 2)], pellets := [(0, 1)] }
+    (bfsDist [[0, 0, 0, 0, 0], [1, 1, 1, 1, 1], [0, 1, 0, 1, 0], [0, 1, 0, 1, 0], [0, 0, 1, 0, 0]] (1, 0)) = false := by decide +kernel
+end Props.C10
+
+namespace Props.C07
+/-- whole episodes, generic: from a consistent state without duplicate pellet cells, every state of every episode
+(any action values, any time limit, any length, ghost draws admissible where they are used) is consistent, lists no
+pellet twice and has the maze of the start state — induction over the episode with `pacman_step_consistent` -/
+theorem pacman_trace_consistent (tl : Int) (s : State) (ads : List (Int × Draw)) (hC : Consistent s)
+    (hN : (nonzero s.pelletLocs).Nodup) (hv : validRun tl s ads = true) :
+    ∀ s' ∈ trace tl s ads, Consistent s' ∧ (nonzero s'.pelletLocs).Nodup ∧ s'.grid = s.grid :=
+  PacMan.trace_consistent tl ads s hC hN hv
+
+/-- whole episodes from `reset`, for ANY maze table satisfying the C10 specification -/
+theorem pacman_run_consistent_of_table (t : MazeTable) (h : MazeTableOK t) (tl : Int) (ads : List (Int × Draw))
+    (hv : validRun tl (PacMan.reset t.toState).1 ads = true) :
+    ∀ s' ∈ trace tl (PacMan.reset t.toState).1 ads, Consistent s' ∧ (nonzero s'.pelletLocs).Nodup ∧ s'.grid = t.grid :=
+  PacMan.trace_consistent tl ads _ (PacMan.reset_consistent t h).1 (PacMan.reset_consistent t h).2 hv
+
+/-- the shipped maze: every state of every episode of `PacMan()` (start state = the state the real `reset` returns,
+Gen/PacManMaze.lean) is consistent: the player and the four ghosts stay inside the maze on free cells, the remaining
+pellets / power-ups lie on free cells, the pellet counter is the number of remaining pellets (cell (0,0) of the
+shipped maze is a wall), the maze never changes -/
+theorem pacman_run_consistent (tl : Int) (ads : List (Int × Draw))
+    (hv : validRun tl (PacMan.reset Gen.PacManMaze.table.toState).1 ads = true) :
+    ∀ s' ∈ trace tl (PacMan.reset Gen.PacManMaze.table.toState).1 ads,
+      Consistent s' ∧ (nonzero s'.pelletLocs).Nodup ∧ s'.grid = Gen.PacManMaze.grid :=
+  pacman_run_consistent_of_table _ Props.C10.pacman_default_maze_ok tl ads hv
+
+/-- the hypothesis is satisfiable on the shipped maze: two steps with the ghosts staying put -/
+example : validRun 1000 (PacMan.reset Gen.PacManMaze.table.toState).1
+    [(1, ⟨Gen.PacManMaze.table.ghosts, [4, 4, 4, 4]⟩), (3, ⟨Gen.PacManMaze.table.ghosts, [4, 4, 4, 4]⟩)] = true := by
+  decide +kernel
+example : validRun 10 pacmanCEx [(1, pacmanCDraw)] = true := by decide +kernel
 end Props.C07
 
 namespace Props.C11
